@@ -39,6 +39,13 @@ RULE_E = ("the batch stream again on a CompassApp with the energy_model traversa
           "indices compared bit for bit across repeated runs, parallelism, orders, thread pools and each query alone; first "
           "the corpus witness: one query 300 times in a row must give one distinct response (fixed 147ae1b, d268fda)")
 
+RULE_EC = ("DECIDING cache family: the energy stream with float_cache_policy {key_precisions [0,0]} enabled in every "
+           "application under test (real_world_energy_adjustment 1.166), on inputs where no two distinct (speed, grade) "
+           "lookups share a cache key: integer km/h speed table read in the key's unit, no grade table; there the cache "
+           "is transparent (c06_cache_transparent_if_stable), so the returned vector, the sink content and 300 repeated runs "
+           "must equal bit for bit the model composed from, and each query run alone on, an application WITHOUT cache; "
+           "warm and cold cache states are both visited (applications are reused across cases and repetitions)")
+
 K_ID = "K_child_error_drops_siblings"
 
 
@@ -92,6 +99,12 @@ def run(chk):
                            extra=extra, replay=chk.replay, timeout=6000)
         chk.add_stream(r4, RULE_E)
         vf.compare(chk, r4, classify=classify, binpath=binp, extra=extra)
+    if which in (None, "ecache"):
+        extra = ["--corpus", os.path.join(vf.ROOT, "corpus", "C06")]
+        r5 = vf.run_stream(binp, "ecache", 160 if quick else 2500, chk.seed, os.path.join(chk.outdir, "ecache"),
+                           extra=extra, replay=chk.replay, timeout=6000)
+        chk.add_stream(r5, RULE_EC)
+        vf.compare(chk, r5, classify=classify, binpath=binp, extra=extra)
     if which in (None, "cache"):
         r3 = vf.run_stream(binp, "cache", 40 if quick else 400, chk.seed, os.path.join(chk.outdir, "cache"), replay=chk.replay)
         chk.add_stream(r3, RULE_C)
